@@ -10,9 +10,13 @@
    proof side (merklize.go:1739-1766): Proof returns NewValue(mz.hasher, entry.value)
        whose MtEntry is mkValueMtEntry again, and whose Is* methods test the Go kind.
 
-   Floats stay abstract (IEEE bit patterns, Value/Model.v `floats`); one more
-   recorded primitive is needed for json-gold's integer test
+   Floats stay abstract (IEEE bit patterns, Value/Model.v `floats`).  json-gold's
+   integer test
        isInteger := floatVal == float64(int64(floatVal))
+   is Value.Model.float_int64 (integer arithmetic on the bit pattern; the same test
+   convertAnyToString makes since fix 7821fd0); the harness records the real
+   outcome of that test for every float used (`floats_ext`) and LeafRun.v checks
+   that float_int64 reproduces it.
    No proofs in this file. *)
 From Coq Require Import ZArith List String Ascii Bool.
 From GSP Require Import Base.Prelude Value.Time Value.Model.
@@ -29,7 +33,7 @@ Inductive jval :=
 | JStr (s : string)
 | JOther.
 
-(* recorded primitive of ld/node.go:264:
+(* recorded outcome of ld/node.go:264 on the real floats (cross-check of float_int64 only):
      None            the call was not recorded
      Some None       floatVal <> float64(int64(floatVal))   (not "integer")
      Some (Some z)   floatVal == float64(int64(floatVal)) and int64(floatVal) = z *)
@@ -47,24 +51,20 @@ Definition raw (v : jval) : goval :=
 (* objectToRDF on a value object {"@value": v, "@type": declared?} without @language:
    lexical form and datatype of the literal.  `declared = None` is an untyped
    native value (or plain string). *)
-Definition to_rdf_lex (F : floats) (X : floats_ext) (declared : option string) (v : jval)
+Definition to_rdf_lex (F : floats) (declared : option string) (v : jval)
   : res (string * string) :=
   let dt_or (d : string) := match declared with Some t => t | None => d end in
   match v with
   | JBool b => Ok (if b then "true" else "false", dt_or xsd_boolean)
   | JNum bits =>
-    match f_int64 X bits with
-    | None => Panic miss_tag
-    | Some oi =>
-      let declared_double :=
-        match declared with Some t => String.eqb t xsd_double | None => false end in
-      match oi, declared_double with
-      | Some z, false => Ok (z_to_string z, dt_or xsd_integer)        (* fmt "%d" int64(f) *)
-      | _, _ =>
-        match f_canon F bits with
-        | Some c => Ok (c, dt_or xsd_double)                          (* GetCanonicalDouble *)
-        | None => Panic miss_tag
-        end
+    let declared_double :=
+      match declared with Some t => String.eqb t xsd_double | None => false end in
+    match float_int64 bits, declared_double with
+    | Some z, false => Ok (z_to_string z, dt_or xsd_integer)          (* fmt "%d" int64(f) *)
+    | _, _ =>
+      match f_canon F bits with
+      | Some c => Ok (c, dt_or xsd_double)                            (* GetCanonicalDouble *)
+      | None => Panic miss_tag
       end
     end
   | JStr s => Ok (s, dt_or xsd_string)
